@@ -150,6 +150,10 @@ func (s *LinkedLog) ReadWithSize(offset uint64, size uint64) ([]OffsetAndSizeAnd
 	// debugln("compactedIndexesLen:", compactedIndexesLen)
 	// Read the compressed indexes
 	prefixLen := uint64(sizeOfLengthPrefix(size))
+	if size < prefixLen+indexes.IndexValueSize_CidToOffsetAndSize {
+		// a record holds at least its length prefix and the 9-byte pointer to the previous record
+		return nil, indexes.OffsetAndSize{}, fmt.Errorf("compacted indexes length too small: %d", size)
+	}
 	data := make([]byte, size-prefixLen) // The size bytes have already been read.
 	_, err := s.file.ReadAt(data, int64(offset)+int64(prefixLen))
 	if err != nil {
